@@ -151,13 +151,36 @@ func cmdCheck(args []string) int {
 				out.engineErrs = append(out.engineErrs, "function under contract not found: "+pat)
 			}
 		}
+		// support functions: a function called by contract from a selected function contributes its postconditions to
+		// the proof as assumptions, whatever property its clauses are tagged for; so it is verified here too, with
+		// all of its clauses (transitively). Trusted callees are covered by their body fingerprint instead.
+		support := map[string]bool{}
 		eng.wanted = func(r *FnRun, o *Obligation) bool {
+			if support[r.fn.Pkg.Pkg.Name()+":"+r.relName] {
+				return spec.belongsSupport(o)
+			}
 			return spec.belongs(prop, r.fn.Pkg.Pkg.Name(), o)
 		}
-		for _, key := range order {
+		for i := 0; i < len(order); i++ {
+			key := order[i]
 			r := eng.verifyFunc(eng.funcs[key])
 			pkgNameOf[r] = strings.SplitN(key, ":", 2)[0]
 			runs = append(runs, r)
+			if os.Getenv("GOVC_NO_SUPPORT") == "1" {
+				continue
+			}
+			for _, ck := range sortedKeys(r.calleeKeys) {
+				f, ok := eng.funcs[ck]
+				if !ok || selected[ck] {
+					continue
+				}
+				if fc := eng.contractFor(f); fc == nil || fc.Trusted || fc.Kind != "func" {
+					continue
+				}
+				selected[ck] = true
+				support[ck] = true
+				order = append(order, ck)
+			}
 		}
 		// contracts that bind to nothing
 		for _, p := range eng.loadedPkgs {
@@ -177,6 +200,9 @@ func cmdCheck(args []string) int {
 		eng.solveAll(runs, func(o *Obligation) bool {
 			for _, r := range runs {
 				if r.relName == o.Func && r.fn.Pkg.Pkg.Path() == o.Pkg {
+					if support[pkgNameOf[r]+":"+r.relName] {
+						return spec.belongsSupport(o)
+					}
 					return spec.belongs(prop, pkgNameOf[r], o)
 				}
 			}
